@@ -251,7 +251,8 @@ Proof.
   cbn [step] in E, Es. exists y', r. split; [exact E|]. split; [exact YI'|].
   repeat (split; [assumption|]).
   destruct (prio_static_inv (xc_cfg xc) (x_s y) q v (proj1 YI)) as (s2 & r2 & E2 & _ & Hh).
-  rewrite E2 in Es. rewrite Es. intros o u H. rewrite Hh. eauto.
+  rewrite E2 in Es. rewrite Es. intros o u H. rewrite Hh.
+  exists u. split; [exact H|]. split; [reflexivity | apply incl_refl].
 Qed.
 
 Lemma lift_prio_inherit xc y q :
@@ -263,7 +264,8 @@ Proof.
   cbn [step] in E, Es. exists y', r. split; [exact E|]. split; [exact YI'|].
   repeat (split; [assumption|]).
   destruct (prio_inherit_inv (xc_cfg xc) (x_s y) q (proj1 YI)) as (s2 & r2 & E2 & _ & Hh).
-  rewrite E2 in Es. rewrite Es. intros o u H. rewrite Hh. eauto.
+  rewrite E2 in Es. rewrite Es. intros o u H. rewrite Hh.
+  exists u. split; [exact H|]. split; [reflexivity | apply incl_refl].
 Qed.
 
 Lemma restore_prio_inv xc x q pc :
@@ -275,13 +277,13 @@ Proof.
     exists x' r,
       match
         match pv with
-        | Some v => if v <? 256 then xlift x (prio_static (xc_cfg xc) (x_s x) q v) else XOk x RUnit
+        | Some v => if v <? U8_LIMIT then xlift x (prio_static (xc_cfg xc) (x_s x) q v) else XOk x RUnit
         | None => XOk x RUnit end
       with
       | XDangling => XDangling
       | XOk x1 _ =>
         match pm with
-        | Some m => if (m <? 256) && (m =? PRIORITY_MODE_INHERIT)
+        | Some m => if (m <? U8_LIMIT) && (m =? PRIORITY_MODE_INHERIT)
                     then xlift x1 (prio_inherit (xc_cfg xc) (x_s x1) q) else XOk x1 RUnit
         | None => XOk x1 RUnit
         end
@@ -289,18 +291,18 @@ Proof.
   { intros pv pm.
     assert (exists x1 r1,
         match pv with
-        | Some v => if v <? 256 then xlift x (prio_static (xc_cfg xc) (x_s x) q v) else XOk x RUnit
+        | Some v => if v <? U8_LIMIT then xlift x (prio_static (xc_cfg xc) (x_s x) q v) else XOk x RUnit
         | None => XOk x RUnit end = XOk x1 r1 /\ XInv xc x1 /\ xkeep x x1) as (x1 & r1 & E1 & XI1 & K1).
-    { destruct pv as [v|]; [destruct (v <? 256); [apply lift_prio_static; exact XI|]|];
+    { destruct pv as [v|]; [destruct (v <? U8_LIMIT); [apply lift_prio_static; exact XI|]|];
         exists x, RUnit; (split; [reflexivity|]; split; [exact XI | apply xkeep_refl]). }
     rewrite E1.
     assert (exists x2 r2,
         match pm with
-        | Some m => if (m <? 256) && (m =? PRIORITY_MODE_INHERIT)
+        | Some m => if (m <? U8_LIMIT) && (m =? PRIORITY_MODE_INHERIT)
                     then xlift x1 (prio_inherit (xc_cfg xc) (x_s x1) q) else XOk x1 RUnit
         | None => XOk x1 RUnit
         end = XOk x2 r2 /\ XInv xc x2 /\ xkeep x1 x2) as (x2 & r2 & E2 & XI2 & K2).
-    { destruct pm as [m|]; [destruct ((m <? 256) && (m =? PRIORITY_MODE_INHERIT)); [apply lift_prio_inherit; exact XI1|]|];
+    { destruct pm as [m|]; [destruct ((m <? U8_LIMIT) && (m =? PRIORITY_MODE_INHERIT)); [apply lift_prio_inherit; exact XI1|]|];
         exists x1, RUnit; (split; [reflexivity|]; split; [exact XI1 | apply xkeep_refl]). }
     exists x2, r2. split; [exact E2|]. split; [exact XI2 | exact (xkeep_trans _ _ _ K1 K2)]. }
   assert (exists x' r, XOk x RUnit = XOk x' r /\ XInv xc x' /\ xkeep x x') as Skip.
@@ -329,7 +331,7 @@ Proof.
       exists x'. split; [exact E|]. split; [exact XI'|]. split; [congruence|].
       exact (keeps_live_trans _ _ _ Ky K'). }
     destruct (x_puni x1 q) as [n|]; [|apply Next; assumption].
-    destruct (n <? 4294967296); [|apply Next; assumption].
+    destruct (n <? UINT_LIMIT); [|apply Next; assumption].
     destruct (xpatch_inv xc x1 q n XI1) as (x2 & b & E2 & XI2 & _ & K2 & A2 & _).
     rewrite E2. apply Next; [exact XI2 | congruence | exact (keeps_live_trans _ _ _ K1 K2)].
 Qed.
@@ -437,11 +439,11 @@ Proof.
   destruct o as [b| d | d | | n cl | n cl].
   - destruct b; cbn [xstep]; try (apply L; intros; discriminate).
     + destruct (xpatch_inv xc x p n XI) as (x' & b & E & XI' & _ & K & _).
-      exists x', (RBool b). split; [exact E|]. split; [exact XI'|]. intros a u Ha. left. exact (K a u Ha).
+      exists x', (RBool b). split; [exact E|]. split; [exact XI'|]. intros a u Ha. left. exact (keeps_live_num _ _ K a u Ha).
     + destruct (xunpatch_inv xc x p XI) as (x' & b & E & XI' & _ & _ & K & _).
-      exists x', (RBool b). split; [exact E|]. split; [exact XI'|]. intros a u Ha. left. exact (K a u Ha).
+      exists x', (RBool b). split; [exact E|]. split; [exact XI'|]. intros a u Ha. left. exact (keeps_live_num _ _ K a u Ha).
   - destruct (xregister_inv xc x d XI) as (x' & r & E & XI' & K).
-    exists x', r. split; [exact E|]. split; [exact XI'|]. intros a u Ha. left. exact (K a u Ha).
+    exists x', r. split; [exact E|]. split; [exact XI'|]. intros a u Ha. left. exact (keeps_live_num _ _ K a u Ha).
   - destruct (xunregister_inv xc x d XI) as (x' & r & E & XI' & A & _).
     exists x', r. split; [exact E|]. split; [exact XI'|]. intros a u Ha. left. rewrite A. eauto.
   - destruct (xunregister_all_inv xc x XI) as (x' & r & E & XI' & A & _).
